@@ -90,6 +90,15 @@ def gen_engine_case(rnd):
                                                              'field.description + 1', 'uppercase(field.nope)']))] if rnd.random() < .3 else [],
             'data_sources': {'rows': [{'item': 'Book', 'amount': 12.5}, {'item': 'Pen', 'amount': 3.0}], 'empty': []},
             'txns': []}
+    if rnd.random() < 0.35 and len(rules) >= 2:
+        # a rule that binds a name with := and then fails, followed by a rule reading that name (a primitive, a variable or a fresh
+        # name): the failing rule must leave nothing behind
+        nm = rnd.choice(['amount', 'big', 'seen', 'month', 'description'])
+        i = rnd.randrange(len(rules) - 1)
+        rules[i]['match'] = rnd.choice([f'({nm} := 0) == 0 and contains(5)', f'({nm} := "ZZZ") and amount > "x"',
+                                        f'(({nm} := 99999) > 1) and field.nope == 1'])
+        rules[i].pop('lets', None)
+        rules[i + 1]['match'] = rnd.choice([f'{nm} > 50', f'contains("NETFLIX") or {nm} == 0', f'{nm} == "ZZZ" or contains("UBER")'])
     if case['variables']:
         # rules that read the top-level variables (which may be unevaluable for SOME transactions only, e.g. field.memo)
         for r in rnd.sample(rules, k=min(len(rules), rnd.randint(1, 2))):
@@ -257,6 +266,17 @@ def main(tier):
                                  'tags': ['ok', '{' + rnd.choice(ILL_VALUE) + '}'], 'lets': [('w', rnd.choice(ILL_VALUE))],
                                  'fields': [('f', rnd.choice(ILL_VALUE))]}],
                       'txns': [{'description': 'NETFLIX.COM #1234', 'amount': -15.99, 'date': '2025-02-28', 'source': 'Amex', 'field': None}]})
+    for nm, reader in [('amount', 'amount > 100'), ('big', 'big'), ('seen', 'seen == 1 or contains("COFFEE")')]:
+        for tail in ['contains(5)', 'amount > "x"', 'field.nope == 1']:
+            for with_var in (True, False):
+                cases.append({'kind': 'engine', 'modes': ['first_match', 'most_specific'], 'transforms': [],
+                              'variables': [('big', 'amount > 100')] if with_var else [],
+                              'data_sources': {'rows': [{'item': 'Book', 'amount': 12.5}], 'empty': []},
+                              'rules': [{'name': 'Bad', 'match': f'({nm} := 0) == 0 and {tail}', 'category': 'X'},
+                                        {'name': 'Reader', 'match': reader, 'category': 'Big', 'tags': ['r']},
+                                        {'name': 'Coffee', 'match': 'contains("COFFEE")', 'category': 'Food'}],
+                              'txns': [{'description': 'BLUE BOTTLE COFFEE QTY 12', 'amount': 150.0, 'date': '2025-02-28', 'source': 'Amex', 'field': None},
+                                       {'description': 'COFFEE SHOP - SEATTLE', 'amount': 12.5, 'date': '2025-02-28', 'source': 'Amex', 'field': None}]})
     for ill in VILL + [f'total / {BIG} > 0', 'round(total * 1e308 * 1e308) > 0']:
         cases.append({'kind': 'views', 'variables': [], 'views': [{'name': 'Bad', 'filter': ill}, {'name': 'Good', 'filter': 'total > 1'}],
                       'merchants': [{'name': 'M0', 'category': 'Food', 'subcategory': 'Cafe', 'tags': ['coffee'],
